@@ -472,11 +472,11 @@ def large_community(tokeniser: 'Tokeniser') -> LargeCommunities:
 _HEADER = {
     # header and subheader
     'target':   bytes([0x00, 0x02]),
-    'target4':  bytes([0x01, 0x02]),
-    # TODO: OriginASN4Number (2,2)
+    'target4':  bytes([0x01, 0x02]),  # IPv4 address specific
+    'target-asn4': bytes([0x02, 0x02]),  # four-octet AS specific (RFC 5668)
     'origin':   bytes([0x00, 0x03]),
-    'origin4':  bytes([0x01, 0x03]),
-    # TODO: RouteTargetASN4Number (2,3)
+    'origin4':  bytes([0x01, 0x03]),  # IPv4 address specific
+    'origin-asn4': bytes([0x02, 0x03]),  # four-octet AS specific (RFC 5668)
     'redirect': bytes([0x80, 0x08]),
     'l2info':   bytes([0x80, 0x0A]),
     'redirect-to-nexthop': bytes([0x08, 0x00]),
@@ -488,8 +488,10 @@ _HEADER = {
 _ENCODE = {
     'target':   'HL',
     'target4':  'LH',
+    'target-asn4': 'LH',
     'origin':   'HL',
     'origin4':  'LH',
+    'origin-asn4': 'LH',
     'redirect': 'HL',
     'l2info':   'BBHH',
     'bandwidth': 'Hf',
@@ -545,8 +547,11 @@ def _encode(command: str, components: list[int], parts: list[str]) -> tuple[byte
         raise ValueError('invalid extended community type {}'.format(command))
 
     if command in ('origin', 'target'):
-        if components[0] > _SIZE_H or '.' in parts[0] or parts[0][-1] == 'L':
+        if '.' in parts[0]:
             command += '4'
+        elif components[0] > _SIZE_H or parts[0][-1] == 'L':
+            # a four-octet AS number is not an IPv4 address: the type octet says which it is
+            command += '-asn4'
 
     encoding = _ENCODE[command]
 
